@@ -34,6 +34,16 @@ PREDEF_FORMATS = ["GL", "GQ", "GT", "HP", "PQ", "PS", "HS", "AD"]
 BASES = "ACGT"
 
 
+# names in no particular order: sorting against the file order, sharing prefixes, looking like tags or roles
+SAMPLE_NAMES = ["S1", "S2", "S3", "S10", "NA12878", "NA12", "child", "mother", "father", "B", "A", "sample_2", "HP", "PS", "s1"]
+CHROM_NAMES = ["chrA", "chrB", "chrC", "chr1", "chr11", "chr2", "chr10", "X", "2", "1", "contig_1", "chrUn_x"]
+
+
+def draw_names(rng, pool, n):
+    """n distinct names from the pool in random order (so file order and sorted order differ)"""
+    return rng.sample(pool, n)
+
+
 def _alt_for(rng, kind, ref_base):
     other = [b for b in BASES if b != ref_base]
     if kind == "snv":
@@ -70,8 +80,8 @@ def gen_vcf(rng, nsamples=None, nchrom=None, nrec=None, allow_odd=True, allow_un
     """Returns (VcfText, meta). meta: dict(chroms=[...in order of runs], positions={chrom: [0-based pos per record]})."""
     nsamples = nsamples or rng.choice([1, 1, 2, 3, 3, 4])
     nchrom = nchrom or rng.choice([1, 2, 2, 3])
-    samples = [f"S{i + 1}" for i in range(nsamples)]
-    chroms = [f"chr{chr(65 + i)}" for i in range(nchrom)]
+    samples = draw_names(rng, SAMPLE_NAMES, nsamples)
+    chroms = draw_names(rng, CHROM_NAMES, nchrom)
     prephase = prephase if prephase is not None else rng.choice([None, None, "PS", "HP", "both", "mixed"])
     kinds = kinds or ["snv"] * 8 + ["mnp", "ins", "del", "multi", "multi_indel", "sym", "sym", "sym_multi", "star", "noalt"]
 
@@ -91,6 +101,7 @@ def gen_vcf(rng, nsamples=None, nchrom=None, nrec=None, allow_odd=True, allow_un
     if allow_undeclared and rng.random() < 0.15:
         undeclared_contigs = set(rng.sample(chroms, rng.randint(1, len(chroms))))
 
+    ps_type = rng.choice(["Integer"] * 12 + ["Float", "String"]) if allow_unknown_undeclared is not None else "Integer"
     vt = VcfText(samples, [])
     positions = {}
     run_order = list(chroms)
@@ -99,7 +110,7 @@ def gen_vcf(rng, nsamples=None, nchrom=None, nrec=None, allow_odd=True, allow_un
     nrec_total = 0
     ps_value = {}
     for run_i, c in enumerate(run_order):
-        n = nrec or rng.randint(1, 9)
+        n = nrec if nrec is not None else rng.randint(1, 9)
         p = rng.randint(1, 30) + (5000 if run_i >= len(chroms) else 0)
         for _ in range(n):
             kind = rng.choice(kinds)
@@ -233,6 +244,8 @@ def gen_vcf(rng, nsamples=None, nchrom=None, nrec=None, allow_odd=True, allow_un
         extra.append("##reference=file:///some/ref.fa")
     if rng.random() < 0.3:
         extra.append('##ALT=<ID=DEL,Description="Deletion">')
+    if rng.random() < 0.2:
+        extra.append('##commandline="(whatshap 1.0) phase -o old.vcf in.vcf reads.bam"')
     extra.append('##FILTER=<ID=q10,Description="Quality below 10">')
     extra.append('##FILTER=<ID=s50,Description="Less than 50% of samples have data">')
     for c in chroms:
@@ -250,9 +263,15 @@ def gen_vcf(rng, nsamples=None, nchrom=None, nrec=None, allow_odd=True, allow_un
         line = FORMAT_DEFS[k]
         if k == "AD" and rng.random() < 0.5:
             line = line.replace("Number=R", "Number=.")
+        if k == "PS" and ps_type != "Integer":
+            line = line.replace("Type=Integer", "Type=" + ps_type)
+        if k == "GQ" and rng.random() < 0.2:
+            line = line.replace("Type=Integer", "Type=Float")
         extra.append(line)
     rng.shuffle(extra)
     vt.header_lines = hl + extra
+    if nrec == 0:
+        run_order = []
     meta = {"samples": samples, "chroms": chroms, "runs": run_order, "positions": positions, "prephase": prephase,
-            "unknown_undeclared": unknown}
+            "unknown_undeclared": unknown, "ps_type": ps_type}
     return vt, meta
